@@ -61,7 +61,8 @@ class SQLiteValue(Value):
         if isinstance(value, datetime.date):
             return self.quote_str(str(value))
         if isinstance(value, datetime.timedelta):
-            return repr(value.total_seconds() / (24 * 60 * 60))
+            # the same expression as SQLiteTimedeltaConverter.py2sql: a constant must be the very number that was stored
+            return repr(value.days + (value.seconds + value.microseconds / 1000000.0) / 86400.0)
         return Value.__str__(self)
 
 class SQLiteBuilder(SQLBuilder):
